@@ -170,6 +170,7 @@ def run(tier, out, model_ok, proof):
     if model_ok:
         tcases = [c for c in cases if c["id"].startswith("m")]
         g, tcr, mm, mism = treecorr.run_tree(tcases)
+        treecorr.placed_check(mm, tcases, out)
         for x in mism[:30]:
             out.broken.append({"what": "directive-layer model and implementation disagree: " + x["what"],
                                "detail": {"input": bytes.fromhex(x["case"]["files"]["root.jst"]).decode("latin1")}})
